@@ -17,15 +17,26 @@ import (
 	"sync"
 	"time"
 
+	"golang.org/x/tools/go/ssa"
+
 	"verif/engine/smt"
 	"verif/engine/sym"
 )
 
 const (
-	RepoDir    = "/repo"
 	VerifDir   = "/verif"
 	HarnessDir = "/verif/harness"
 )
+
+// RepoDir is /repo. VERIF_REPO overrides it for development only (running the
+// engine against a scratch worktree while /repo is busy); registered commands
+// never set it.
+var RepoDir = func() string {
+	if d := os.Getenv("VERIF_REPO"); d != "" {
+		return d
+	}
+	return "/repo"
+}()
 
 type Options struct {
 	Tier    int
@@ -76,6 +87,22 @@ func RunOne(p *sym.Program, name string, o Options) *HarnessRun {
 	}
 	cfg.Deadline = time.Now().Add(time.Duration(to) * time.Second)
 	cfg.MaxConc = hc.MaxConc
+	cfg.Replace = map[string]*ssa.Function{}
+	for _, u := range hc.Use {
+		tgt, ok := p.Stubs[u]
+		if !ok {
+			hr.Err = fmt.Errorf("harness %s uses unknown stub %s", name, u)
+			return hr
+		}
+		cfg.Replace[tgt] = p.Pkg.Func(u)
+	}
+	cfg.Pure = map[string]bool{}
+	for _, n := range hc.Pure {
+		if !strings.Contains(n, ".") {
+			n = "github.com/dgrr/http2." + n
+		}
+		cfg.Pure[n] = true
+	}
 	ex := sym.NewExec(p, cfg)
 	mk := func() *smt.Solver {
 		solver := smt.NewSolver(ex.Ctx())
@@ -84,7 +111,7 @@ func RunOne(p *sym.Program, name string, o Options) *HarnessRun {
 			solver.CrossEvery = 20
 			solver.CrossTimeoutMS = 10000
 		} else {
-			solver.CrossEvery = 50
+			solver.CrossEvery = 100
 		}
 		if d := os.Getenv("GOSMT_DUMP"); d != "" {
 			solver.DumpDir = d
@@ -101,6 +128,14 @@ func RunOne(p *sym.Program, name string, o Options) *HarnessRun {
 		nw = 8
 	}
 	ex.SetSolverFactory(nw, mk)
+	if os.Getenv("GOSMT_HIST") != "" {
+		ex.PathHist = map[string]int{}
+		defer func() {
+			for k, v := range ex.PathHist {
+				fmt.Fprintf(os.Stderr, "HIST %6d %s\n", v, k)
+			}
+		}()
+	}
 	if err := ex.RunInit(); err != nil {
 		hr.Err = err
 		return hr
